@@ -155,3 +155,43 @@ Lemma not_late_buffered c id ts now s :
 Proof.
   intros Hl. unfold add_core. rewrite Hl. cbn. apply in_or_app. right. left. reflexivity.
 Qed.
+
+(* ---- late updates (ALLOWEDLATENESS > 0) ---- *)
+Lemma filter_none {A} (f : A -> bool) l : (forall x, In x l -> f x = false) -> filter f l = [].
+Proof.
+  induction l as [|a l IH]; cbn; intros H; [reflexivity|]. rewrite (H a (or_introl eq_refl)). apply IH.
+  intros x Hx. apply H. right. exact Hx.
+Qed.
+
+(* a late row that falls in a fired window still registered produces, inside that Add, exactly one
+   more batch with the same (start, end): the previous contents followed by the row *)
+Lemma late_update_exact c id ts now s t :
+  0 < size c -> Inv c s -> init s = true ->
+  is_late ts (update_event_time (ooo c) now ts (w s)) = true ->
+  inwin c (slot s) ts = false -> (0 <? lateness c) = true ->
+  find (fun t => in_twin t ts) (trig s) = Some t ->
+  snd (add_core c id ts now s) =
+    [{| b_start := t_start t; b_end := t_end t; b_rows := t_snap t ++ [(id, ts)]; b_late := true |}].
+Proof.
+  intros Hs (H0 & H1 & _) Hi Hl Hw Hlt Hf. unfold add_core. rewrite Hi, Hl. cbn [negb andb]. rewrite Hw, Hlt, Hf. cbn [snd].
+  destruct (H1 Hi) as (_ & Hd & Ht). apply find_some in Hf as [Hin Hts].
+  rewrite Forall_forall in Ht. specialize (Ht t Hin).
+  rewrite filter_app. cbn [filter rts snd]. rewrite Hts.
+  rewrite (filter_none (fun r => in_twin t (rts r)) (data s)); [reflexivity|].
+  intros r Hr. rewrite Forall_forall in Hd. specialize (Hd r Hr). unfold in_twin.
+  apply andb_false_iff. right. apply Z.ltb_ge. lia.
+Qed.
+
+(* REFUTED (finding F8a): "an event older than watermark - ALLOWEDLATENESS never changes any result".
+   10 s windows, lateness 1 s: +20.1, +25.0, then +20.5 (older than 25.0 - 1.0), +31.0: the first firing of
+   [20,30) holds all three rows *)
+Lemma beyond_lateness_inert_refuted :
+  exists c h id ts,
+    In (EvBatch {| b_start := 20000; b_end := 30000; b_rows := [(1, 20100); (2, 25000); (id, ts)]; b_late := false |})
+       (snd (run c st0 h)) /\ ts < 25000 - ooo c - lateness c.
+Proof.
+  exists {| size := 10000; ooo := 0; lateness := 1000; idle := 0 |},
+         [Add 1 20100 0; Add 2 25000 0; Add 3 20500 0; Add 4 31000 0;
+          DeliverBegin; FireStep; DeliverBegin; FireStep; DeliverBegin; FireStep; FireStep], 3, 20500.
+  split; [vm_compute; tauto|cbn; lia].
+Qed.
